@@ -31,7 +31,9 @@ def build(case):
         if "phi" in case and hasattr(g, "phi"):
             g.phi = case["phi"]
         if "v" in case and hasattr(g, "ntheta"):
-            g = G.RotationGate(np.array(case["v"], dtype=float), g.qubit)
+            dt = case.get("vdtype", "float")
+            v = list(case["v"]) if dt == "pyint" else np.array(case["v"], dtype={"float": float, "int64": np.int64, "int32": np.int32, "int16": np.int16}[dt])
+            g = G.RotationGate(v, g.qubit)
         return g
     if k == "ctrl":
         qs = c["qubits"]
@@ -263,6 +265,10 @@ def gen_cases(tier, rng):
                 break
     for v in GL.VECS:
         yield {"kind": "leaf", "cls": "RotationGate", "seed": rng.randrange(10 ** 9), "v": list(v)}
+    # integer-typed rotation vectors (array-likes are accepted as they are): small, and large enough that integer arithmetic on them wraps
+    for v, dt in (([3, -4, 12], "pyint"), ([5_000_000_000, 0, 0], "pyint"), ([0, 3_100_000_000, -7], "int64"), ([60000, 0, 1], "int32"),
+                  ([200, -150, 0], "int16"), ([1, 0, 0], "int16")):
+        yield {"kind": "leaf", "cls": "RotationGate", "seed": rng.randrange(10 ** 9), "v": v, "vdtype": dt}
     # all control patterns exhaustively, non-symmetric targets
     maxc = 4 if thorough else 3
     for nc in range(1, maxc + 1):
